@@ -28,6 +28,7 @@ EXHAUSTIVE_DOMAINS = {
     'list_lattice': 'List(Int, min_size, max_size) over {0,1,2} x {None,0,1,2} x noneable: all ordered pairs',
     'vtuple_lattice': 'variable-length Tuple(Int, min_size, max_size) over {0,1,2} x {None,0,1,2,3}: all ordered pairs',
     'enum_vs_int': 'base Int(min,max) over {None,0,1,2}^2 x child Enum over every non-empty subset of {-1,0,1,2,3}',
+    'union_frozen_candidate': 'base Union([Int frozen at 0/1/2, Str]) x child in {Int, Int(min 0), Int frozen at 0/1/2, Enum, Str}',
     'union_overlap': 'Union of Bool and Int(min,max) over {None,0,2}^2 in both orders, bare or as List element x every ordered pair '
                      'of values from {True,False,-1,0,1,2,3,"s"} applied to one spec object vs fresh equal specs',
 }
@@ -134,8 +135,14 @@ def exhaustive(tier):
         for wrap in ('none', 'list'):
           for x, y in itertools.product(OVERLAP_VALUES, repeat=2):
             yield {'overlap': {'lo': lo, 'hi': hi, 'bool_first': bool_first, 'str': False, 'wrap': wrap}, 'seq': [x, y]}
+  def ufcs():
+    for fv in (0, 1, 2):
+      for child in ('int', 'int_min0', 'enum', 'str'):
+        yield {'ufc': {'frozen': fv, 'child': child, 'child_frozen': None}}
+      for cv in (0, 1, 2):
+        yield {'ufc': {'frozen': fv, 'child': 'int_frozen', 'child_frozen': cv}}
   return {'int_lattice': pairs(ints()), 'list_lattice': pairs(lists()), 'vtuple_lattice': pairs(vtuples()),
-          'enum_vs_int': enums(), 'union_overlap': overlaps()}
+          'enum_vs_int': enums(), 'union_overlap': overlaps(), 'union_frozen_candidate': ufcs()}
 
 
 def _derive(d, kind, arg):
@@ -400,10 +407,50 @@ def _execute_overlap(case, res):
   return res
 
 
+def _execute_frozen_candidate(case, res):
+  """A base Union with a frozen candidate: what extends it must not accept more than the base."""
+  c = case.get('ufc')
+  if not isinstance(c, dict):
+    raise core.InvalidCase(case)
+  fv, child, cv = c.get('frozen'), c.get('child'), c.get('child_frozen')
+  if fv not in (0, 1, 2) or child not in ('int', 'int_min0', 'int_frozen', 'enum', 'str') or cv not in (None, 0, 1, 2):
+    raise core.InvalidCase(case)
+  T = pg.typing
+  base = T.Union([T.Int().freeze(fv), T.Str()])
+
+  def mk():
+    if child == 'int':
+      return T.Int()
+    if child == 'int_min0':
+      return T.Int(min_value=0)
+    if child == 'int_frozen':
+      return T.Int().freeze(cv if cv is not None else 0)
+    if child == 'enum':
+      return T.Enum(1, [0, 1, 2])
+    return T.Str()
+  sig = {'a': 'union+frozen-candidate', 'b': child}
+  res.label('frozen-candidate', 'child:' + child)
+  try:
+    ext = mk().extend(base)
+  except REJECT:
+    res.label('not-extended')
+    return res
+  res.nontrivial = True
+  for v in (0, 1, 2, 3, 's'):
+    ok_e, _ = _accepts(ext, lambda v=v: v)
+    ok_b, rb = _accepts(base, lambda v=v: v)
+    if ok_e and ok_b is False:
+      return res.violate('%r extended base %r into %r, which accepts %r although the base rejects it (%r)' % (
+          mk(), base, ext, v, rb), law='extension-wider-than-base', **sig)
+  return res
+
+
 def execute(case):
   res = core.Result()
   if isinstance(case, dict) and 'overlap' in case:
     return _execute_overlap(case, res)
+  if isinstance(case, dict) and 'ufc' in case:
+    return _execute_frozen_candidate(case, res)
   if not isinstance(case, dict) or not isinstance(case.get('a'), dict):
     raise core.InvalidCase(case)
   specs._CLASS_CACHE.clear()   # pylint: disable=protected-access
